@@ -235,3 +235,75 @@ func VC_C18_iface_mixed() {
 	verifAssert(r == want, "C18.iface-mixed.equals-is-go-equality")
 	verifReached("C18.iface-mixed")
 }
+
+var vC18Floats = [6]float64{0, 1.5, -2.25, 1e300, 3, 0.1}
+
+// VC_C18_float64: ordinary floating-point values (a concrete corpus: the engine has no
+// symbolic floats): Equals is Go equality, symmetric, In is the union.
+func VC_C18_float64() {
+	x := vC18Floats[verifChoice("x", 6)]
+	y := vC18Floats[verifChoice("y", 6)]
+	a := vC18Floats[verifChoice("a", 6)]
+	vAlgebra(x, y, y, a, reflect.TypeOf(float64(0)), x == a, y == a, y == a, "C18.float64")
+}
+
+// VC_C18_float32: the same for float32.
+func VC_C18_float32() {
+	x := float32(vC18Floats[verifChoice("x", 6)])
+	a := float32(vC18Floats[verifChoice("a", 6)])
+	vAlgebra(x, a, x, a, reflect.TypeOf(float32(0)), x == a, true, x == a, "C18.float32")
+}
+
+// composites that Go itself cannot compare with ==: deep equality element by element,
+// lengths included; a nil slice/map equals only nil
+func VC_C18_slice() {
+	mk := func(n string) ([]int, int, int, int) {
+		l := verifChoice(n+".len", 4) // 3 = nil
+		v0, v1 := verifInt(n+"0"), verifInt(n+"1")
+		if l == 3 {
+			return nil, 3, 0, 0
+		}
+		return []int{v0, v1}[:l], l, v0, v1
+	}
+	x, xl, x0, x1 := mk("x")
+	a, al, a0, a1 := mk("a")
+	eq := xl == al
+	if eq && xl >= 1 && xl < 3 {
+		eq = verifAnd(eq, x0 == a0)
+	}
+	if xl == al && xl == 2 {
+		eq = verifAnd(eq, x1 == a1)
+	}
+	vAlgebra(x, a, x, a, reflect.TypeOf([]int(nil)), eq, true, eq, "C18.slice")
+}
+
+func VC_C18_array() {
+	x := [2]int{verifInt("x0"), verifInt("x1")}
+	y := [2]int{verifInt("y0"), verifInt("y1")}
+	a := [2]int{verifInt("a0"), verifInt("a1")}
+	vAlgebra(x, y, y, a, reflect.TypeOf([2]int{}), x == a, y == a, y == a, "C18.array")
+}
+
+func VC_C18_map() {
+	mk := func(n string, l int) (map[string]int, int, int) { // l: 0 = nil, 1, 2 entries
+		v0, v1 := verifInt(n+"0"), verifInt(n+"1")
+		switch l {
+		case 0:
+			return nil, 0, 0
+		case 1:
+			return map[string]int{"k": v0}, v0, 0
+		}
+		return map[string]int{"k": v0, "l": v1}, v0, v1
+	}
+	xl, al := verifChoice("x.len", 3), verifChoice("a.len", 3)
+	x, x0, x1 := mk("x", xl)
+	a, a0, a1 := mk("a", al)
+	eq := xl == al
+	if eq && xl >= 1 {
+		eq = verifAnd(eq, x0 == a0)
+	}
+	if xl == al && xl == 2 {
+		eq = verifAnd(eq, x1 == a1)
+	}
+	vAlgebra(x, a, x, a, reflect.TypeOf(map[string]int(nil)), eq, true, eq, "C18.map")
+}
